@@ -327,6 +327,10 @@ def _gen_fields(step):
                         stores.append(arm[k].text)
                     if arm[k].kind == "ident" and arm[k + 1].text == "." and arm[k + 2].text == "push" and arm[k + 3].text == "(" and arm[k + 4].text == "newitem":
                         stores.append(arm[k].text)
+                if txt.count("newitem") != 2:
+                    # binding + one store; anything else (a look-up that replaces an earlier element, a second copy, a conditional store)
+                    # is a shape this scan does not understand
+                    bad.append("arm %s of %s uses `newitem` %d times (expected: the binding and one store)" % (t.text, where, txt.count("newitem")))
                 if len(stores) != 1 or stores[0] not in accs:
                     bad.append("arm %s of %s stores `newitem` %d time(s) (%s)" % (t.text, where, len(stores), ", ".join(stores)))
                 else:
